@@ -194,12 +194,18 @@ def null_hook(wp, n):
 
 
 _KERNELS = {}
+_LOCK = __import__('threading').RLock()
 
 
 def kernel(cxx):
     """{'ret': term, 'defined': term, 'conv': term | None, 'fn': record} of lsearch_step_t::<cxx> in the current source"""
-    if cxx in _KERNELS:
+    with _LOCK:
+        if cxx not in _KERNELS:
+            _KERNELS[cxx] = _kernel(cxx)
         return _KERNELS[cxx]
+
+
+def _kernel(cxx):
     fn = astload.find_definition(LSTEP, FLT, cxx)
     src = astload.resolve_tu(LSTEP)
     wp = KernelWP('interp/' + cxx)
@@ -238,8 +244,7 @@ def kernel(cxx):
     rec = {'c_name': 'interp/' + cxx, 'cxx': FLT + cxx, 'file': src, 'line': fn.get('loc', {}).get('line'), 'sha': astload.file_hash(src)}
     ret, defined = show(simplify(parse(ret))), show(simplify(parse(AND(*wp.defined))))
     conv = None if conv is None else show(simplify(parse(conv)))
-    _KERNELS[cxx] = {'ret': ret, 'defined': defined, 'conv': conv, 'fn': rec, 'src': src, 'pointers': sorted(wp.pointers)}
-    return _KERNELS[cxx]
+    return {'ret': ret, 'defined': defined, 'conv': conv, 'fn': rec, 'src': src, 'pointers': sorted(wp.pointers)}
 
 
 def apply(cxx, u, v):
